@@ -25,6 +25,9 @@ TABLE = {
     "Perturb_c13_quick": dict(BASE, PKinds="KInc", MaxEdits=2, DumpMod=32),
     "Perturb_c13_thorough": dict(BASE, PKinds="KInc", MaxEdits=2, MaxStmts=4),
     "Perturb_c13_sim": dict(SIM, PKinds="KInc", MaxEdits=3),
+    "Perturb_c04_quick": dict(BASE, PKinds="KLayout1", MaxEdits=1, DumpMod=4),
+    "Perturb_c04_thorough": dict(BASE, PKinds="KLayout1", MaxEdits=2, MaxStmts=4),
+    "Perturb_c04_sim": dict(SIM, PKinds="KLayout", MaxEdits=8, MinEdits=4),
     "Perturb_c15_quick": dict(BASE, PKinds="KSent", MaxEdits=2),
     "Perturb_c15_thorough": dict(BASE, PKinds="KSent", MaxEdits=3, MaxStmts=4),
     "Perturb_c15_sim": dict(SIM, PKinds="KSentCmt", MaxEdits=4),
